@@ -152,7 +152,7 @@ CLAIMS["C10"] = {
 
 NOT_APPLICABLE = {
     "C08": "GHT nodes own std HashMap / hashbrown HashTable at every level; variadic type recursion is outside Verus' subset and CBMC does not get through hashbrown probing (spiked): no contract on these functions can be discharged here.",
-    "C16": "Tool limit, measured: the channel (Rc<RefCell<Shared>>, Weak, VecDeque, SmallVec<[Waker;1]>, tokio error types) extracted verbatim into a Kani harness crate (contracts/kani/vk_mpsc, kept unregistered) drives CBMC to 65 GB RSS in propositional reduction for a single try_send call with static-vtable wakers and forgotten endpoints; Rc/RefCell/Waker code is outside Verus' subset; the no-stranded-sender part is a liveness property needing whole-history ghost state. The stale-duplicate-waker stranding trace found while reading is documented in DESIGN.md §6.2 with its native reproduction; no registered check reports it.",
+    "C16": "Tool limit, measured: the channel (Rc<RefCell<Shared>>, Weak, VecDeque, SmallVec<[Waker;1]>) extracted verbatim into a Kani harness crate (contracts/kani/vk_mpsc, kept unregistered) drives CBMC to 35-65 GB RSS in propositional reduction for a single try_send call, also with static-vtable wakers, forgotten endpoints, Waker drop/wake/clone stubbed by direct dispatch, and tokio replaced by a shim of the two error types (DESIGN.md section 11 has the bisection); Rc/RefCell/Waker code is outside Verus' subset; the no-stranded-sender part is a liveness property needing whole-history ghost state. The stale-duplicate-waker stranding trace found while reading is documented in DESIGN.md section 6.2 with its native reproduction; no registered check reports it.",
     "C17": "Tool limit, measured: topo_sort / validate_topo_sort / SubgraphMerge::try_merge allocate std HashMap/HashSet/BTreeMap/BTreeSet internally (not swappable through a type parameter; CBMC did not finish a 2-node topo_sort in 7 min even with hasher stubs) and are outside Verus' subset (recursive inner fn, FnMut closures returning generic IntoIterators). The one remaining piece, dfir_lang::union_find::UnionFind over slotmap::SecondaryMap, was extracted verbatim into a Kani harness crate (contracts/kani/vk_uf, kept unregistered): every harness, including a single find on the empty structure with 3 keys, exceeds 1200 s of CBMC time (recursive find + SecondaryMap::insert growth). Nothing of C17 can be discharged here.",
     "C18": "Quantifies over programs the compiler accepts; partition_graph works on DfirGraph (slotmaps of syn AST nodes): no contract over that state is within Verus' subset and Kani cannot build a symbolic DfirGraph.",
     "C19": "Same as C18; the only function-level dependency (topo_sort cycle detection) owns a std HashMap internally and is out of reach (spiked).",
